@@ -264,6 +264,25 @@ def run_shard(shard):
                             iv_pair(acc, mods, kind, fa, fb, z, native=(bi < 2 or shard["estep"] == 1))
         acc.sample({"interval_pairs_from": list(calref.civil_from_days(shard["n0"])),
                     "kinds": [k for k, _ in shard["kinds"]]})
+    elif k == "long":
+        # spans beyond 2^33 s (272 years): the length no longer fits a float of seconds exactly - the components must
+        # still be exact and rebuild the end
+        for da in ((5, 1, 1), (1000, 2, 28), (1700, 1, 1), (1999, 12, 31), (2000, 2, 29)):
+            acc.c["states"] += 1
+            for yrs in (271, 272, 273, 300, 600, 1000, 5000, 7990):
+                for m, dd in ((1, 1), (2, 28), (7, 15), (12, 31)):
+                    db = (da[0] + yrs, m, dd)
+                    if db[0] > 9998:
+                        continue
+                    for bi, (ta, tb) in enumerate(BORROWS):
+                        fa, fb = tuple(da) + ta, tuple(db) + tb
+                        for kind, z in shard["kinds"]:
+                            if kind == "date" and bi:
+                                continue
+                            acc.c["nontrivial"] += 1
+                            with worker.guarded(acc, "interval", {"kind": "iv", "arg": kind, "z": z, "a": list(fa), "b": list(fb)}):
+                                iv_pair(acc, mods, kind, fa, fb, z, native=True)
+        acc.sample({"long_spans_years": [271, 272, 273, 300, 600, 1000, 5000, 7990]})
     elif k == "cross-same":
         # differently NAMED zones that share their offset: nothing but the names tells the helper to go through UTC
         for n in range(shard["n0"], shard["n1"], shard["step"]):
@@ -357,6 +376,7 @@ def plan(tier, seed):
     for s in range(d(2019, 1, 1), d(2023, 1, 1), 48):
         shards.append({"kind": "cross-same", "n0": s, "n1": s + 48, "step": 1 if thorough else 3, "span": 430,
                        "estep": 1 if thorough else 5, "pairs": [list(p) for p in SAME_OFFSET_PAIRS]})
+    shards.append({"kind": "long", "kinds": kinds[:4]})
     oz = ["Europe/Paris", "America/New_York", "Europe/London", "Australia/Lord_Howe", "America/Sao_Paulo", "Asia/Tehran"] + \
         [z for z in seeds.witness_zones(seed, 3)[-3:]]
     shards += [{"kind": "overlap", "zones": [z], "limit": 0 if thorough else 6, "seed": seed} for z in oz]
@@ -368,7 +388,7 @@ def plan(tier, seed):
         plans.append(({"ext": 0, "tz": "sys"}, iv_only))
     else:
         plans.append(({"ext": 0, "tz": "sys"}, [s for s in shards if s["kind"] == "iv"][::6] +
-                      [s for s in shards if s["kind"] in ("cross", "overlap")] + [s for s in shards if s["kind"] == "cross-same"][::3]))
+                      [s for s in shards if s["kind"] in ("cross", "overlap", "long")] + [s for s in shards if s["kind"] == "cross-same"][::3]))
     return plans
 
 
